@@ -192,11 +192,22 @@ func (c *clientRec) Write(b []byte) (int, error) {
 	return len(b), nil
 }
 
+// informational reports a 1xx code that net/http sends at once without
+// setting the response's status (every 1xx but 101 Switching Protocols).
+func informational(c int) bool { return c >= 100 && c <= 199 && c != 101 }
+
 // status is what an HTTP client would see for the recorded calls (net/http:
-// the first WriteHeader wins, otherwise 200).
+// informational headers do not count, the first WriteHeader with a final
+// code wins, a Write before that or the end of the handler means 200).
+// Mirrors LogMw!ClientStatus.
 func status(calls []call) int {
-	if len(calls) > 0 && calls[0].Op == "wh" {
-		return calls[0].C
+	for _, c := range calls {
+		if c.Op == "w" {
+			return http.StatusOK
+		}
+		if !informational(c.C) {
+			return c.C
+		}
 	}
 	return http.StatusOK
 }
